@@ -102,6 +102,22 @@ def _pure(expr):
     return True
 
 
+def _terminates(stmts):
+    """control never falls off the end of the statement list"""
+    if not stmts:
+        return False
+    last = stmts[-1]
+    if isinstance(last, (ast.Return, ast.Raise)):
+        return True
+    if isinstance(last, ast.If):
+        return _terminates(last.body) and _terminates(last.orelse)
+    if isinstance(last, ast.Try) and not last.finalbody:
+        return (_terminates(last.body) or _terminates(last.orelse)) and all(_terminates(h.body) for h in last.handlers)
+    if isinstance(last, ast.With):
+        return _terminates(last.body)
+    return False
+
+
 class _Subst(ast.NodeTransformer):
     """replace Name loads by expressions / rename names"""
 
@@ -298,7 +314,7 @@ class Flattener(object):
                 body, bt = self.convert(list(s.body), res, at_tail)
                 out.append(ast.copy_location(ast.With(items=s.items, body=body, type_comment=None), s))
                 return out, bt
-            if isinstance(s, ast.Try) and not rest and not s.finalbody:
+            if isinstance(s, ast.Try) and not s.finalbody and (not rest or _terminates([s])):
                 body, bt = self.convert(list(s.body), res, at_tail)
                 handlers = []
                 ht = True
